@@ -167,6 +167,8 @@ pub fn judge(src: &str) -> Verdict {
 const STRING_SHAPES: &[&str] = &[
     "\"plain\"", "\"esc \\n \\t \\\\ \\\" \\{ end\"", "\"hole {x} end\"", "\"a {\"b//c\" f} d\"", "\"nested {\"in {x} ner\"} out\"", "\"{x}{x}\"", "\"\"", "\"// not a comment\"", "\"tab\\there\"",
     "\"\"\"\n    multi\n      line\n    \"\"\"", "\"\"\"\n    hole {x} here\n    \"\"\"", "\"\"\"\n    one \\\n    two\n    \"\"\"", "\"\"\"\n    trail\\s\n\n    \"\"\"", "\"\"\"\n    q \\\"\"\" q\n    \"\"\"", "\"s {x // a\n }\"", "\"url http://x.y/z\"",
+    // strings that end in an escaped backslash (the closing quote follows a backslash that is itself escaped), and runs of them
+    "\"a\\\\\"", "\"\\\\\"", "\"x \\\\\\\\\"", "\"q\\\"\\\\\"", "\"{x}\\\\\"",
 ];
 
 pub fn gen_case(seed: u64, idx: u64) -> (&'static str, String) {
@@ -209,7 +211,7 @@ pub fn gen_case(seed: u64, idx: u64) -> (&'static str, String) {
         6 => {
             // string shapes in value position, optionally inside structures and with comments around
             let sh = rng.pick(STRING_SHAPES);
-            let s = match rng.below(5) { 0 => format!("x = 1, {}", sh), 1 => format!("x = 1,\ny = [{}, {}] // tail\n", sh, rng.pick(STRING_SHAPES)), 2 => format!("x = 1\n// lead\nf = #'int {{ {} }}", sh), 3 => format!("x = 1, x {{ =1 => {} | {} }}", sh, rng.pick(STRING_SHAPES)), _ => format!("x = 1, [a: {}, // c\n b: 2]", sh) };
+            let s = match rng.below(5) { 0 => format!("x = 1, {} // after\ny = 2 // end\n", sh), 1 => format!("x = 1,\ny = [{}, {}] // tail\n", sh, rng.pick(STRING_SHAPES)), 2 => format!("x = 1\n// lead\nf = #'int {{ {} }}", sh), 3 => format!("x = 1, x {{ =1 => {} | {} }}", sh, rng.pick(STRING_SHAPES)), _ => format!("x = 1, [a: {}, // c\n b: 2]", sh) };
             if crate::qv::parses(&s) { ("string-shapes", s) } else { ("corpus", base) }
         }
         _ => {
